@@ -17,7 +17,16 @@ import (
 
 // C10: invalid operations never reach a service; service errors reach the client intact.
 
-func init() { Registry["C10"] = scenINV }
+func init() {
+	Registry["C10"] = func(s *sched.Sim, cfg Config, res *Result) {
+		// one run in six looks at errors sent on subscriptions (scenario of C17, error oracle only)
+		if s.T.Choose(6) == 0 {
+			scenSUB(s, cfg, res)
+			return
+		}
+		scenINV(s, cfg, res)
+	}
+}
 
 var reFieldTok = regexp.MustCompile(`[{ ]([a-z][A-Za-z0-9]*)( |\(|\{|\})`)
 
